@@ -208,6 +208,26 @@ def returns_owned(name):
     return name in OWN_RETURN or name.startswith(OWN_RETURN_PREFIX)
 
 
+def refcount_delta(rc_off, e):
+    """+1 / -1 if store event e is `x->refcount = x->refcount +- 1`, else None"""
+    if e.kind != "store":
+        return None
+    b, off = ptr_key(e.args[0])
+    if off != rc_off:
+        return None
+    v = e.args[1]
+    if isinstance(v, tuple) and v[0] == "op" and v[1] == "add":
+        x, y = v[3], v[4]
+        c = x if is_const(x) else (y if is_const(y) else None)
+        o = y if c is x else x
+        if c is not None and isinstance(o, tuple) and o[0] == "ld" and o[1] == b and o[2] == rc_off:
+            if c[1] == 1:
+                return 1
+            if c[1] == (1 << 64) - 1:
+                return -1
+    return None
+
+
 class Balance:
     """Per-path reference balance of every item term this function owns.
     +1 when acquired (owned return, consumed parameter, frame popped), -1 when
@@ -218,6 +238,7 @@ class Balance:
     def __init__(self, prog, eff, cache, nullness):
         self.prog, self.eff, self.cache, self.nullness = prog, eff, cache, nullness
         self.root_off = prog.field_offset("_cbor_decoder_context", "root")
+        self.rc_off = prog.field_offset("cbor_item_t", "refcount")
         self.item_off = prog.field_offset("_cbor_stack_record", "item")
         self.top_off = prog.field_offset("_cbor_stack", "top")
 
@@ -273,6 +294,10 @@ class Balance:
                 v = res(e.args[1])
                 if v in bal and off == self.root_off and isinstance(b, tuple) and b[0] == "arg":
                     bump(v, -1, "stored as context root", e)
+                # an inlined incref / move: item->refcount = item->refcount +- 1
+                d_ = refcount_delta(self.rc_off, e)
+                if d_ is not None:
+                    bump(b, d_, "refcount %+d (inlined)" % d_, e)
             elif e.kind == "call" and e.ckind == "lib":
                 c = e.callee
                 if c in self.nullness.identity and c not in ("cbor_move", "cbor_incref"):
